@@ -250,6 +250,8 @@ def run(P, R, tier):
     scancount_rule(P, R)
     rowtypes_rule(P, R)
     cutback_rule(P, R)
+    nullthenuse_rule(P, R)
+    registered_rule(P, R)
     replacegrow_rule(P, R)
     stdthrow_census(P, R, reach)
 
@@ -1667,3 +1669,145 @@ def cutback_rule(P, R):
     else:
         R.violation(RULE, "MOLES_TOO_LARGE", "the cut-back under MOLES_TOO_LARGE reduces h without charging the failed-step budget (%s): a reaction that fails at every step size above "
                     "~1e-16 s alternates cut-back and tiny accepted steps and the call does not return" % ", ".join(sorted(counters)), file=f["file"], line=labels[0][1], function=f["q"])
+
+
+NULLTHENUSE_EXEMPT = {
+    # function -> reason the null branch cannot be left with a null pointer
+    "Phreeqc::isotope_balance_equation": "read_inv_isotopes stops with `Element not found for isotope calculation` for an undefined element, so primary_ptr is never NULL here "
+                                          "(replayed: INVERSE_MODELING -isotopes 13Zz ends in that input error)",
+}
+
+
+def nullthenuse_rule(P, R):
+    """"Any byte sequence ... no crash": the engine reports many faults of the input with error_msg(..., CONTINUE) and goes on collecting
+    errors.  A test `if (p == NULL) { report, continue }` that is followed at once by a statement that dereferences p contradicts itself:
+    either the test can never be true or the next statement crashes (tidy_model: a database without e-).  Program-wide: an if without
+    else whose condition is a null test of a pointer, whose body neither ends the flow (return / throw / break / continue / goto /
+    error_msg STOP / errormsg / malloc_error) nor assigns the pointer, and whose next sibling statement dereferences the pointer in its
+    own condition or expression."""
+    RULE = "C08.nullthenuse"
+    R.rule(RULE, "no null test that reports and continues is followed directly by a dereference of the same pointer", minimum=1)
+
+    def nulltest(c):
+        c = T.strip_casts(c)
+        if T.is_node(c) and c[0] == "Paren":
+            return nulltest(c[2])
+        if T.is_node(c) and c[0] == "Bin" and c[2] == "==":
+            a, b = T.strip_casts(c[3]), T.strip_casts(c[4])
+            for p_, q_ in ((a, b), (b, a)):
+                if T.is_node(q_) and q_[0] == "Lit" and str(q_[3]) == "0" and T.is_node(p_) and p_[0] in ("Member", "Ref") and str(p_[4]).rstrip().endswith("*"):
+                    return " ".join(T.text(p_).split())
+        if T.is_node(c) and c[0] == "Un" and c[2] == "!":
+            p_ = T.strip_casts(c[3])
+            if T.is_node(p_) and p_[0] in ("Member", "Ref") and str(p_[4]).rstrip().endswith("*"):
+                return " ".join(T.text(p_).split())
+        return None
+
+    def ends_flow(st):
+        for y in T.walk(st):
+            if y[0] in ("Return", "Throw", "Break", "Continue", "Goto"):
+                return True
+            if y[0] == "Call" and T.callee_name(y) in ("errormsg", "malloc_error", "exit", "abort"):
+                return True
+            if y[0] == "Call" and T.callee_name(y) == "error_msg" and len(y[4]) >= 2 and T.lit_value(T.strip_casts(y[4][1])) == 1:
+                return True
+        return False
+
+    def deref(n, x):
+        for y in T.walk(n):
+            if y[0] == "Member" and T.is_node(y[3]) and " ".join(T.text(T.strip_casts(y[3])).split()) == x:
+                return y[1]
+        return None
+    tests = 0
+    for k, g in sorted(P.functions.items(), key=lambda kv: kv[1]["q"]):
+        for comp in T.walk(g["body"]):
+            if comp[0] != "Compound":
+                continue
+            st = comp[2]
+            for i, s_ in enumerate(st[:-1]):
+                if not (T.is_node(s_) and s_[0] == "If" and not T.is_node(s_[4])):
+                    continue
+                x = nulltest(s_[2])
+                if not x:
+                    continue
+                tests += 1
+                if ends_flow(s_[3]) or any(" ".join(T.text(T.strip_casts(t)).split()) == x for t, how, l, w in T.writes(s_[3])):
+                    continue
+                nx = st[i + 1]
+                if not T.is_node(nx):
+                    continue
+                target = nx[2] if nx[0] == "If" else (nx if nx[0] in ("Bin", "Call", "Un") else None)
+                if target is None:
+                    continue
+                d = deref(target, x)
+                if not d:
+                    continue
+                inst = "%s@%d" % (g["q"].split("::")[-1], s_[1])
+                if g["q"] in NULLTHENUSE_EXEMPT:
+                    R.ok(RULE, inst, "exempt: " + NULLTHENUSE_EXEMPT[g["q"]])
+                else:
+                    R.violation(RULE, inst, "`%s` is tested for NULL at line %d, the branch reports and goes on, and line %d dereferences it: input that makes the test true crashes the "
+                                "process" % (x, s_[1], d), file=g["file"], line=d, function=g["q"])
+    R.table("C08.nullthenuse.census", {"null_tests_without_else": tests})
+    if tests < 300:
+        R.anchor_missing(RULE, "only %d null tests found" % tests)
+    else:
+        R.ok(RULE, "census", "%d null tests without else examined" % tests)
+
+
+def registered_rule(P, R):
+    """initial_solutions walks Rxn_new_solution and dereferences Rxn_solution_map.find(n) for every number it finds there.  A reader
+    that registers a number must therefore store a solution under that number on the same paths: in a function that does both
+    (`Rxn_new_solution.insert(n)` and `Rxn_solution_map[n] = ...`), the conditions on n that guard the store must guard the
+    registration too.  (SOLUTION_SPREAD stores a row with a negative number as an unnumbered solution.)"""
+    RULE = "C08.registered"
+    R.rule(RULE, "a solution number is registered in Rxn_new_solution under the same conditions on the number as the solution is stored under it", minimum=1)
+
+    def conds_of(fn, pred):
+        out = []
+
+        def rec(n, conds):
+            if not T.is_node(n):
+                return
+            if pred(n):
+                out.append((n, list(conds)))
+            if n[0] == "If":
+                rec(n[2], conds)
+                rec(n[3], conds + [("+", n[2])])
+                rec(n[4], conds + [("-", n[2])])
+                return
+            for ch in T.children(n):
+                rec(ch, conds)
+        rec(fn["body"], [])
+        return out
+    n = 0
+    for k, g in sorted(P.functions.items(), key=lambda kv: kv[1]["q"]):
+        def is_insert(x):
+            return x[0] == "Call" and T.callee_name(x) == "insert" and T.call_obj(x) is not None and any(
+                y[0] == "Member" and y[2] == "Phreeqc::Rxn_new_solution" for y in T.walk(T.call_obj(x)))
+
+        def is_store(x):
+            return x[0] == "Call" and T.callee_name(x) == "operator=" and x[4] and any(
+                y[0] == "Call" and T.callee_name(y) == "operator[]" and y[4] and any(z[0] == "Member" and z[2] == "Phreeqc::Rxn_solution_map" for z in T.walk(y[4][0])) for y in T.walk(x[4][0]))
+        ins, sto = conds_of(g, is_insert), conds_of(g, is_store)
+        if not ins or not sto:
+            continue
+        for c, conds in ins:
+            arg = T.strip_casts(c[4][0]) if c[4] else None
+            if not (T.is_node(arg) and arg[0] == "Ref"):
+                continue
+            v = arg[3]
+            n += 1
+
+            def on_v(cs):
+                return sorted(sign + " ".join(T.text(e).split()) for sign, e in cs if any(y[0] == "Ref" and y[3] == v for y in T.walk(e)))
+            want = [on_v(cs) for _, cs in sto if any(y[0] == "Ref" and y[3] == v for y in T.walk(_))]
+            got = on_v(conds)
+            inst = "%s@%d" % (g["q"].split("::")[-1], c[1])
+            if not want or got in want:
+                R.ok(RULE, inst, "registered under %s" % (got or "no condition on the number"))
+            else:
+                R.violation(RULE, inst, "the number `%s` is registered in Rxn_new_solution under %s but the solution is stored in Rxn_solution_map[%s] under %s: for the other values "
+                            "initial_solutions dereferences find(%s) == end()" % (v, got or "no condition", v, want[0], v), file=g["file"], line=c[1], function=g["q"])
+    if n < 1:
+        R.anchor_missing(RULE, "no function both registers and stores a solution number")
